@@ -218,3 +218,94 @@ Theorem C12_confined_sharded_refused :
   run B (plain []) t (sh_op_prog B plain b (file_op_of kind n buf mime ow)) = (Refused, t).
 Proof. exact sh_refused_untouched. Qed.
 Print Assumptions C12_confined_sharded_refused.
+
+(* ---------------------------------------------------------------------- *)
+(* (6) Link to C03: PrecomputedIO on the file accessor.
+
+   [fa_write_chunk] / [fa_read_chunk] / [fa_run] (theories/Link/LinkStore.v)
+   are PrecomputedIO.write_chunk / read_chunk / a history of them, with the
+   FileAccessor model above as the store: validate, encode, store_chunk
+   (overwrite=True, MIME type [mime_of key] of the scale's encoder), resp.
+   validate, fetch_chunk, decode.  [raw] turns a file content into the byte
+   string fetch_chunk hands back (only fact used: raw (plain b) = b).
+   Guard: every scale key of the dataset is one directory name that does not
+   end in ".gz" ([scales_ok], executable; [plain_key] - non-empty over
+   [A-Za-z0-9_-] - is a lexical sufficient condition); the dataset directory is
+   fresh and its path has no "..".  No condition on the history. *)
+From NGS Require Import PioModel PioProofs LinkStore LinkStoreProofs.
+
+(* the file accessor implements the abstract chunk store: under every
+   configuration (flat / deep, gzip on / off, any level) every operation of
+   every history has the outcome PioModel.run computes over the abstract store *)
+Theorem C12_chunk_store_simulation :
+  forall (chunk : Type) (encode : list N -> chunk -> outcome (list N))
+         (decode : list N -> list N -> triple -> outcome chunk)
+         (B : Type) (plain : list N -> B) (gz : N -> list N -> B) (gunzip : B -> gzres)
+         (raw : B -> list N) (mime_of : list N -> list N),
+  (forall l b, gunzip (gz l b) = GzOk b) -> (forall b, raw (plain b) = b) ->
+  forall cf scales ops t0,
+  cleanb (base cf) = true -> scales_ok scales = true -> fresh B cf t0 ->
+  snd (fa_run chunk encode decode B plain gz gunzip raw mime_of cf scales t0 ops)
+  = snd (PioModel.run chunk (list N) encode decode scales [] ops).
+Proof. exact fa_simulation. Qed.
+Print Assumptions C12_chunk_store_simulation.
+
+(* end to end: C03_io_refinement verbatim, with the file accessor model as the
+   store - after EVERY history of writes and reads, a read of a valid position
+   returns the chunk of the last successful write to that (scale, position),
+   and a data-access error if there is none; for all four layouts *)
+Theorem C12_chunk_io_refinement :
+  forall (chunk : Type) (encode : list N -> chunk -> outcome (list N))
+         (decode : list N -> list N -> triple -> outcome chunk)
+         (B : Type) (plain : list N -> B) (gz : N -> list N -> B) (gunzip : B -> gzres)
+         (raw : B -> list N) (mime_of : list N -> list N),
+  (forall l b, gunzip (gz l b) = GzOk b) -> (forall b, raw (plain b) = b) ->
+  forall (shape_of : chunk -> triple),
+  (forall k ch b, encode k ch = Ok b -> decode k b (shape_of ch) = Ok ch) ->
+  forall cf scales ops t0 k c,
+  cleanb (base cf) = true -> scales_ok scales = true -> fresh B cf t0 ->
+  Forall (well_shaped chunk shape_of) ops ->
+  check_valid scales k c = Ok tt ->
+  fst (fa_read_chunk chunk decode B plain gz gunzip raw cf scales
+         (fst (fa_run chunk encode decode B plain gz gunzip raw mime_of cf scales t0 ops)) k c)
+  = match last_written chunk (list N) encode scales ops k c None with
+    | Some ch => Ok ch
+    | None => AccessErr
+    end.
+Proof. exact fa_io_refinement. Qed.
+Print Assumptions C12_chunk_io_refinement.
+
+(* the TypeError branch that keeps [fetched_bytes] total is unreachable: for
+   EVERY file system fetch_chunk returns data or a (non-crash) error *)
+Theorem C12_fetch_chunk_bytes :
+  forall (B : Type) (plain : list N -> B) (gz : N -> list N -> B) (gunzip : B -> gzres)
+         (raw : B -> list N) cf t k co,
+  bind (fst (run_op B plain gz gunzip cf t (OFetchChunk k co))) (fetched_bytes B raw)
+  <> Crash TypeError.
+Proof. exact fetched_bytes_no_type_error. Qed.
+Print Assumptions C12_fetch_chunk_bytes.
+
+(* the lexical predicate implies the guard *)
+Theorem C12_plain_key_ok : forall k, plain_key k = true -> key_ok k = true.
+Proof. exact plain_key_ok. Qed.
+Print Assumptions C12_plain_key_ok.
+
+(* non-vacuity: on the executable instance (tagged file contents, octet-stream
+   encoder) every hypothesis holds for a dataset with scale key "10um", and the
+   history  write A at p0; write B at p1; write C at p0; read p0; read p1;
+   read p2  run through the accessor model under all four layouts returns C,
+   B and a data-access error *)
+Example C12_chunk_io_example : forall f g,
+  (forall l b, blob_gunzip [] (BGz l b) = GzOk b) /\
+  (forall b, blob_raw (BPlain b) = b) /\
+  (forall k ch b, ex_encode k ch = Ok b -> ex_decode k b (fst ch) = Ok ch) /\
+  cleanb (base (w_cfg f g)) = true /\ scales_ok ex_scales = true /\ plain_key ex_key = true /\
+  fresh blob (w_cfg f g) [([[119%N]], Dir)] /\
+  Forall (well_shaped ex_chunk fst) ex_ops /\
+  check_valid ex_scales ex_key ex_c0 = Ok tt /\
+  snd (fa_run ex_chunk ex_encode ex_decode blob BPlain BGz (blob_gunzip []) blob_raw octet_mime
+         (w_cfg f g) ex_scales [([[119%N]], Dir)] ex_ops)
+  = [Ok None; Ok None; Ok None;
+     Ok (Some ((64, 64, 64)%Z, [7]%N)); Ok (Some ((36, 64, 64)%Z, [4; 5]%N)); AccessErr].
+Proof. exact link_example. Qed.
+Print Assumptions C12_chunk_io_example.
